@@ -85,7 +85,11 @@ template <class T, class S> struct rebindv<Vec2<T>, S> { typedef Vec2<S> type; }
 template <class T, class S> struct rebindv<Vec3<T>, S> { typedef Vec3<S> type; };
 template <class T, class S> struct rebindv<Vec4<T>, S> { typedef Vec4<S> type; };
 
-// "object" operand standing for a vector (V2 / V3): a vector of element type int, int64, float or double, or a tuple / list
+// "object" operand standing for a vector (V2 / V3): an instance of ANY vector class of that dimension the module registers
+// (element type short, int, int64, float, double, unsigned char), or a tuple / list.  A vector of another element type S
+// stands for the library's converting constructor Vec<T> (const Vec<S>&), i.e. component-wise T (s) of the FULL-WIDTH
+// source components.  (Which of these classes a given binding accepts at all is the binding's business: the driver only
+// demands that a binding which returns for such an operand returns this.)
 template <class V> V vec_arg (const bp::object& o)
 {
     typedef typename V::BaseType T;
@@ -96,7 +100,7 @@ template <class V> V vec_arg (const bp::object& o)
         bp::extract<const typename rebindv<V, S>::type&> e (o);                                                            \
         if (e.check ()) return V (e ());                                                                                   \
     }
-    VR_TRY (int) VR_TRY (int64_t) VR_TRY (float) VR_TRY (double)
+    VR_TRY (int) VR_TRY (int64_t) VR_TRY (float) VR_TRY (double) VR_TRY (short) VR_TRY (unsigned char)
 #undef VR_TRY
     if (PyTuple_Check (o.ptr ()) || PyList_Check (o.ptr ())) return from_seq<V> (o);
     throw std::invalid_argument ("expected a vector");
